@@ -174,16 +174,16 @@ func c10GFlags(gs []bool) string {
 func c10SymbolOp(kind string, full []int) string {
 	switch kind {
 	case "ean13", "upca":
-		f := full
+		f, op := full, "ean13read"
 		if kind == "upca" {
-			f = append([]int{0}, full...)
+			f, op = append([]int{0}, full...), "upcaread"
 		}
 		par := c10EAN13Parity[f[0]]
 		gs := make([]bool, 6)
 		for i := range gs {
 			gs[i] = par[i] == 'G'
 		}
-		return fmt.Sprintf("c10 ean13read %s %s %s", c10DigStr(f[1:7]), c10GFlags(gs), c10DigStr(f[7:13]))
+		return fmt.Sprintf("c10 %s %s %s %s", op, c10DigStr(f[1:7]), c10GFlags(gs), c10DigStr(f[7:13]))
 	case "ean8":
 		return "c10 ean8read " + c10DigStr(full)
 	default:
@@ -204,6 +204,7 @@ func runC10(c *Ctx) {
 	c10Tables(c)
 	c10Arithmetic(c)
 	c10Writers(c)
+	c10ReversedRowWitness(c)
 	c10FaultsUPCEAN(c)
 	c10FaultsCode128(c)
 	c10FaultsCode93(c)
@@ -577,7 +578,7 @@ func c10FaultsUPCEAN(c *Ctx) {
 						g.right += 3 * g.scale
 					}
 					mods := c10Draw(k.name, f2)
-					in := fmt.Sprintf("%s %s pos=%d digit=%d scale=%d", k.name, text, i, d, g.scale)
+					in := fmt.Sprintf("%s %s pos=%d digit=%d scale=%d left=%d right=%d", k.name, text, i, d, g.scale, g.left, g.right)
 					// Is the number now carried still valid by the standard?  Never for EAN-13/EAN-8/UPC-A
 					// (theorem ean_detects_single_substitution).  For UPC-E the last body digit selects the
 					// zero-suppression rule, so changing it changes several digits of the UPC-A number the
@@ -596,8 +597,15 @@ func c10FaultsUPCEAN(c *Ctx) {
 					}
 					var out string
 					if r.Chance(0.04) {
-						out, _ = c10ReadImage(k.reader(), mods, g.scale, g.left, g.right, r.Pick([]int{1, 2, 7, 40}), nil)
+						h := r.Pick([]int{1, 2, 7, 40})
+						out, _ = c10ReadImage(k.reader(), mods, g.scale, g.left, g.right, h, nil)
 						c.Note("fault:image-level")
+						in += fmt.Sprintf(" image height=%d", h)
+						if !judge(out) && c10IsReversedRowRead(k, mods, g, out) {
+							// OneDReader.doDecode retries every row reversed: a class of its own (see c10ReversedRowWitness)
+							c.Oracle("fault", false, k.name+"-substitution-read-reversed-row", in, "Decode(image): "+out+" (the forward row read fails; this is the reversed-row retry)")
+							continue
+						}
 					} else {
 						row := c10Row(mods, g.scale, g.left, g.right)
 						out, _ = c10ReadRow(rd, row, nil)
@@ -638,6 +646,41 @@ func c10Min(a, b int) int {
 		return a
 	}
 	return b
+}
+
+// does the matching reader fail on the row but return `out` on the reversed row?
+func c10IsReversedRowRead(k c10Kind, mods []bool, g c10Geom, out string) bool {
+	row := c10Row(mods, g.scale, g.left, g.right)
+	fwd, _ := c10ReadRow(c10RD(k.reader()), row, nil)
+	row.Reverse()
+	rev, _ := c10ReadRow(c10RD(k.reader()), row, nil)
+	return strings.HasPrefix(fwd, "ERR:") && rev == out
+}
+
+// Witness of a finding that is not repaired: a UPC-E symbol whose check digit is wrong is refused in
+// reading direction, but OneDReader.doDecode then retries the row reversed, where the asymmetric UPC-E
+// guards shift the digit framing by three runs and decodeDigit matches every digit at its own scale:
+// the retry can return a different number whose own check digit verifies.
+func c10ReversedRowWitness(c *Ctx) {
+	k := c10Kinds[3]
+	for _, w := range []struct {
+		num   string
+		scale int
+	}{{"12855648", 2}, {"12855648", 3}} {
+		f := c10Digits(w.num)
+		if c10StdCheck("upce", f[:7]) == f[7] {
+			continue
+		}
+		g := c10Geom{w.scale, 9 * w.scale, 12*w.scale + 1}
+		mods := c10DrawUPCE(f)
+		out, _ := c10ReadImage(k.reader(), mods, g.scale, g.left, g.right, 5, nil)
+		in := fmt.Sprintf("upce symbol carrying %s (wrong check digit) scale=%d left=%d right=%d image height=5", w.num, g.scale, g.left, g.right)
+		key := "upce-substitution-read"
+		if !strings.HasPrefix(out, "ERR:") && c10IsReversedRowRead(k, mods, g, out) {
+			key = "upce-substitution-read-reversed-row"
+		}
+		c.Oracle("fault", strings.HasPrefix(out, "ERR:"), key, in, "Decode(image): "+out)
+	}
 }
 
 // "ok FORMAT hex" -> "ok hex"
@@ -920,6 +963,9 @@ func c10AddOns(c *Ctx) {
 	})
 }
 
+// quiet zones of 10 modules on both sides (rendering at the default size is C03's clause, not C10's)
+var c10WideMargin = map[gozxing.EncodeHintType]interface{}{gozxing.EncodeHintType_MARGIN: 20}
+
 // ---------- thorough: every UPC-E number and EAN-8 payload through writer + reader ----------
 
 func c10Exhaustive(c *Ctx) {
@@ -947,7 +993,7 @@ func c10Exhaustive(c *Ctx) {
 				bs := c10DigStr(body)
 				want := bs + string(byte('0'+c10StdCheck(k.name, body)))
 				got := Safe(func() string {
-					bm, e := w.Encode(bs, k.format, 0, 1, nil)
+					bm, e := w.Encode(bs, k.format, 0, 1, c10WideMargin)
 					if e != nil {
 						return "ERR:" + errKind(e)
 					}
